@@ -1611,6 +1611,15 @@ func C14Child(mode, tier string, seed int64) {
 			pc := [][2]int{{16, 16}, {8, 4}, {4, 2}, {32, 16}, {3, 3}}[rep%5]
 			c14Hammer(st, shared, pc[0], pc[1], iters, fmt.Sprintf("%s-rep%d", mode, rep))
 			c14HammerPairs(st, shared, pc[0], pc[1], iters/2+100, 24, fmt.Sprintf("%s-rep%d", mode, rep))
+			// crowd phases: far more goroutines in flight than any small fixed pool of slots, buffers or shards has entries
+			// (256 and 1,024 callers of one method on 16 Ps); a bounded shared resource runs into its exhaustion path
+			if mode == "race-instr" {
+				// the yield pass makes every call slow: crowds are left to the plain, race and asan builds
+			} else if rep%2 == 0 {
+				c14Hammer(st, shared, 256, 16, iters/64+20, fmt.Sprintf("%s-crowd256-rep%d", mode, rep))
+			} else {
+				c14Hammer(st, shared, 1024, 16, iters/256+10, fmt.Sprintf("%s-crowd1024-rep%d", mode, rep))
+			}
 		}
 		for _, cfg := range [][2]int{{4, 2}, {16, 16}, {64, 16}, {16, 2}, {8, 1}} {
 			ops := 24000 / scale / cfg[0] * 4
@@ -1953,7 +1962,7 @@ func CheckC14(c *Ctx) {
 		c.Extra["yield_points_inserted"] = s
 	}
 	c.SetReport(Report{
-		Rule:        "four builds of the CURRENT tree (plain; -race; -race after the AST yield-point pass that inserts seeded Gosched/sleep calls at loop heads and after call statements of go-cvss; -asan in thorough). In each: (1) baselines of ~40 inputs per version computed after forced double GC in forward and reverse order (must agree with each other, with the grammar/canonical-form oracles and -- plain build -- with the same call made as the first call of a fresh process; likewise every optional metric as the sole optional metric of a vector, each value, each in its own fresh process); (2) sequential histories hostile to pooled scratch buffers under GOMAXPROCS(1)+GC off: ALL ordered pairs per version, all triples for v2 (1/7 for others), random sequences of 2-50 calls across versions -- every result must equal its baseline; (3) goroutines {4,8,16,64} x GOMAXPROCS {1,2,16} hammering the small shared input set, plus a hot-keys phase per repetition over only 2-4 inputs (parse, everything observable of shared read-only objects, Set on local copies, parse-mutate-parse, Rating) with results compared to baselines; (0) cold concurrent starts: short-lived processes in which NO go-cvss call has happened yet release 8-24 goroutines together, round by round, on the same parse + score + Vector + Nomenclature + Get of every metric + Rating (all three rating-capable versions) calls (550 first-use rounds each), judged against the spec oracles; (3b) hammer phases: G goroutines calling ONE method on the same 4 objects in a tight loop with nothing of the harness in between (one phase per scoring method, Vector and ParseVector, per version and repetition; G x GOMAXPROCS in {16x16, 8x4, 4x2, 32x16, 3x3}), each result compared with the quiescent value; pair phases: half of the goroutines call method A, the other half a different method B (scores, Vector, ParseVector of valid and of rejected input, Set+Get on a private copy; same or another CVSS version), 24 seeded pairs per repetition; (2b) sibling histories (plain, asan): for 3 (thorough 12) background objects per version EVERY object differing from it in exactly one or exactly two metrics (one background, thorough 3: also exactly three), in the histories unrelated,A / A,B / B,A -- results must equal the reference after the unrelated call; (2d) period probes (plain, asan): a vector with every optional metric defined, d-1 calls on a base-only vector, the first vector again, for d in {255,256,257,65535,65536,65537} on one P with GC off -- every result must equal its reference (generation counters that wrap); (2e) poisoned errors: every rejected input is parsed, the exported fields of the returned error are overwritten by the caller (reflection) and the input is parsed again, likewise Get/Set on unknown abbreviations -- the second result must equal the baseline; (2c) aliased inputs (all builds but the yield pass): all ordered pairs per version with both inputs written into ONE reused buffer and passed as views of it, and as fresh heap copies dropped at once with a GC every 8 calls -- results must equal the baselines; (4) every Vector() string kept next to an immediate clone and re-compared later, forced GC every 10k events; (5) elapsed time: one plain-build process goes idle and wakes at process ages 0.5/1.5/3.5/7.5/15.5/47 s (thorough: also 110/300/910 s), each time making every alphabet call in a rotated order, re-reading the objects parsed at the start and re-setting every metric of clones to its own value -- all must equal the baselines (time is the stimulus, equality the verdict). Race reports are counted from the GORACE log (never from the exit code) and de-duplicated by first-frame pair. evaluations = events; distinct = distinct (previous call, current call) context pairs summed over builds",
+		Rule:        "four builds of the CURRENT tree (plain; -race; -race after the AST yield-point pass that inserts seeded Gosched/sleep calls at loop heads and after call statements of go-cvss; -asan in thorough). In each: (1) baselines of ~40 inputs per version computed after forced double GC in forward and reverse order (must agree with each other, with the grammar/canonical-form oracles and -- plain build -- with the same call made as the first call of a fresh process; likewise every optional metric as the sole optional metric of a vector, each value, each in its own fresh process); (2) sequential histories hostile to pooled scratch buffers under GOMAXPROCS(1)+GC off: ALL ordered pairs per version, all triples for v2 (1/7 for others), random sequences of 2-50 calls across versions -- every result must equal its baseline; (3) goroutines {4,8,16,64} x GOMAXPROCS {1,2,16} hammering the small shared input set, plus a hot-keys phase per repetition over only 2-4 inputs (parse, everything observable of shared read-only objects, Set on local copies, parse-mutate-parse, Rating) with results compared to baselines; (0) cold concurrent starts: short-lived processes in which NO go-cvss call has happened yet release 8-24 goroutines together, round by round, on the same parse + score + Vector + Nomenclature + Get of every metric + Rating (all three rating-capable versions) calls (550 first-use rounds each), judged against the spec oracles; (3b) hammer phases: G goroutines calling ONE method on the same 4 objects in a tight loop with nothing of the harness in between (one phase per scoring method, Vector and ParseVector, per version and repetition; G x GOMAXPROCS in {16x16, 8x4, 4x2, 32x16, 3x3}, plus crowd phases with 256 and 1,024 goroutines on 16 Ps), each result compared with the quiescent value; pair phases: half of the goroutines call method A, the other half a different method B (scores, Vector, ParseVector of valid and of rejected input, Set+Get on a private copy; same or another CVSS version), 24 seeded pairs per repetition; (2b) sibling histories (plain, asan): for 3 (thorough 12) background objects per version EVERY object differing from it in exactly one or exactly two metrics (one background, thorough 3: also exactly three), in the histories unrelated,A / A,B / B,A -- results must equal the reference after the unrelated call; (2d) period probes (plain, asan): a vector with every optional metric defined, d-1 calls on a base-only vector, the first vector again, for d in {255,256,257,65535,65536,65537} on one P with GC off -- every result must equal its reference (generation counters that wrap); (2e) poisoned errors: every rejected input is parsed, the exported fields of the returned error are overwritten by the caller (reflection) and the input is parsed again, likewise Get/Set on unknown abbreviations -- the second result must equal the baseline; (2c) aliased inputs (all builds but the yield pass): all ordered pairs per version with both inputs written into ONE reused buffer and passed as views of it, and as fresh heap copies dropped at once with a GC every 8 calls -- results must equal the baselines; (4) every Vector() string kept next to an immediate clone and re-compared later, forced GC every 10k events; (5) elapsed time: one plain-build process goes idle and wakes at process ages 0.5/1.5/3.5/7.5/15.5/47 s (thorough: also 110/300/910 s), each time making every alphabet call in a rotated order, re-reading the objects parsed at the start and re-setting every metric of clones to its own value -- all must equal the baselines (time is the stimulus, equality the verdict). Race reports are counted from the GORACE log (never from the exit code) and de-duplicated by first-frame pair. evaluations = events; distinct = distinct (previous call, current call) context pairs summed over builds",
 		DistinctN:   distinct,
 		Assumptions: []string{"the race detector sees only executed pairs of accesses; interleavings are explored, not enumerated", "dependence on elapsed time is observed only up to the idle gaps lived through (31.5 s quick, 10 min thorough); dependence on the environment (variables, files, clock date) is not driven", "in the plain build every baseline is also recomputed as the first call of a freshly started process; the sanitizer builds rely on the double-GC baseline"},
 	})
